@@ -49,3 +49,27 @@ def property_holds(ns, g, maxb, maxs):
     return ok
 
 
+
+
+def property_holds_parents(ns, ps, g, maxb, maxs):
+    """Same oracle on job-group specs that carry the REAL parent fields: group i (in-update id i+1) names an in-update parent
+    ps[i] in 1..i (`in_update_parent_id`, as JobGroup._submit writes it) or hangs off an already submitted group
+    (`absolute_parent_id`, ps[i] == 0).  Parent ids need not be monotone (g1; g2 under g1; g3 at the root)."""
+    n = len(ns)
+    jg = []
+    for i in range(g):
+        spec = {'n': ns[i], 'id': i, 'job_group_id': i + 1}
+        if ps[i] > 0:
+            spec['in_update_parent_id'] = ps[i]
+        else:
+            spec['absolute_parent_id'] = 0
+        jg.append(spec)
+    js = [{'n': ns[i], 'id': i, 'in_update_job_group_id': 1} for i in range(g, n)]
+    bunches = aioclient.Batch._create_bunches(None, jg, js, maxb, maxs)
+    flat = [sb for b in bunches for sb in b]
+    ok = len(flat) == n
+    for i, sb in enumerate(flat):
+        if i >= n:
+            break
+        ok = ok and sb.spec_bytes.ident == i and sb.spec_bytes.n == ns[i]
+    return ok
